@@ -1,6 +1,7 @@
 """C17 - results do not depend on input compression."""
 import glob
 import os
+import zlib
 import random
 import shutil
 import tempfile
@@ -50,7 +51,7 @@ def make_session(rnd, pad):
         name = f"q{q}"
         opt = [f"tp:A:{rnd.choice('PPS')}", f"cg:Z:{L}=", "NM:i:1"] + ([f"zz:Z:{'p' * pad}"] if pad else [])
         if not pad and q % 5 == 4:      # a free-text last field ending in white space that is not ASCII (no-break / ideographic space)
-            opt.append("co:Z:sample 7" + ["\u00a0", "\u3000", " \u00a0"][q % 3])
+            opt.append("co:Z:sample 7" + ["\u00a0", "\u3000", " \u00a0", " ", "  "][q % 5])      # ... or in plain blanks
         recs.append("\t".join([name, str(L), "0", str(L), "+", "".join(o + n for o, n in steps), str(len(spelled)), str(ps), str(pe), str(L), str(L), str(rnd.choice([0, 30, 60]))] + opt))
         reads.append((name, read))
     return nodes, links, recs, reads
@@ -89,7 +90,9 @@ def battery(d, tag, nodes, links, recs, reads, gs, fs, block, eol="\n", zsuf=".g
     res = {}
     bg = gs == "bgzf"
     gfa = os.path.join(d, f"{tag}.gfa" + (".gz" if fs == "gz" else ""))
-    write_text(gfa, gfa_text(nodes, links, True), "gz" if fs == "gz" else "plain")
+    # a compressed graph is a gzip file: one stream as `gzip` writes it, or many members as `bgzip` does (here in small blocks)
+    gstore = ("bgzf" if zlib.crc32(tag.encode() + str(block).encode()) % 2 else "gz") if fs == "gz" else "plain"
+    write_text(gfa, gfa_text(nodes, links, True), gstore, block=120)
     raw = os.path.join(d, f"{tag}_raw.gfa" + (".gz" if fs == "gz" else ""))
     write_text(raw, gfa_text(nodes, links, False), "gz" if fs == "gz" else "plain")
     # the plain GAF and its BGZF copy sit side by side under one name (in.gaf / in.gaf.gz), as they do for a user who
@@ -121,6 +124,9 @@ def battery(d, tag, nodes, links, recs, reads, gs, fs, block, eol="\n", zsuf=".g
         o = os.path.join(d, f"{tag}_v{qi}")
         r = run_cli(["view", gaf, "-o", o] + args)
         put(f"view{qi}", r if r["status"] != "exit" else dict(r, status="ok"), (open(o).read() if os.path.exists(o) else "") + f"|{r['status']}")
+    o = os.path.join(d, f"{tag}_vall")
+    r = run_cli(["view", gaf, "-o", o])       # the whole file, as it is
+    put("view_all", r, open(o).read() if os.path.exists(o) else "")
     st = os.path.join(d, f"{tag}_st.gaf")
     r = run_cli(["view", gaf, "-g", gfa, "-f", "stable", "-o", st])
     put("view_stable", r, open(st).read() if os.path.exists(st) else "")
